@@ -26,7 +26,9 @@ RULE = ("cases: every type expression with <=3 wrappers over the 5 specified sca
         "in a list/object literal}; non-trivial = distinct (registry, argument type, default, route, value) whose value is not a "
         "bare scalar-at-scalar success (i.e. involves null, a wrapper, an enum, an input object, a boundary or a rejection)")
 ASSUMPTIONS = [
-    "enum internal values are not None and python names are distinct within one input object / argument list",
+    "the statement presupposes what the theorems take as CHECKED hypotheses (RegOK / ArgsOK): enum internal values are not None and python names "
+    "are distinct within one input object / argument list; the model follows the code's behaviour on colliding python names (stream "
+    "`collision`, correspondence only) and Props/C07_examples.lean has the witnesses that neither hypothesis can be dropped",
     "JSON integers stay below 2^200 (float(int) OverflowError is out of scope); non-finite floats (json.loads accepts Infinity/NaN) ARE generated: "
     "the Float scalar refuses them on both routes (fix X2), `int(inf)` inside coerce_int escapes as OverflowError (outcome class `internal`); "
     "IntValue texts are canonical decimal (no `-0`)",
@@ -1027,6 +1029,51 @@ def run_allowed(ctx, world, reg, reg_id, specs, n):
                          {"reg": U.reg_to_jsonable(reg), "document": doc, "request": it, "impl": list(im), "model": ans}, kind="correspondence")
 
 
+def run_collisions(ctx):
+    """Python names that collide (two input fields / two arguments with the same python_name): outside the statement's
+    premises (no dict can hold both), so NO property oracle here — only the correspondence: the model follows what the
+    code does (`coerced[python_name] = …`: later value, earlier position)."""
+    reg = {"types": [t for t in U.fixed_registry()["types"] if t["kind"] != "input"] + [
+        {"name": "C", "kind": "input", "fields": [
+            {"name": "a", "py": "k", "type": N("Int"), "default": None},
+            {"name": "b", "py": "k", "type": N("Int"), "default": [9]},
+            {"name": "c", "py": "k2", "type": N("String"), "default": ["d"]},
+            {"name": "d", "py": "k", "type": L(N("E")), "default": None}]}]}
+    specs = [[arg("x", N("Int"), None, "p"), arg("y", N("Int"), [5], "p")],
+             [arg("y", N("Int"), [5], "p"), arg("x", N("C"), None, "p"), arg("z", N("Boolean"), None, "q")]]
+    try:
+        world = World(reg, specs)
+    except Exception as e:  # noqa
+        ctx.notes.append("colliding python names are refused by the schema: %s" % type(e).__name__)
+        return
+    items, impl, what = [], [], []
+    vals = [{}, {"a": 1}, {"b": 2}, {"a": 1, "b": 2}, {"b": 2, "a": 1}, {"d": "A", "a": 3}, {"a": 1, "d": ["B"], "c": "x"}, {"a": "x", "b": 1}, None]
+    for j in vals:
+        items.append({"op": "coerce_value", "ty": ty_json(N("C")), "v": U.jv_wire(j)})
+        impl.append(world.coerce_value(N("C"), j)); what.append(("coerce_value", j))
+        lit = U.ast_of_json(reg, N("C"), j)
+        items.append({"op": "value_from_ast", "ty": ty_json(N("C")), "lit": U.lit_wire(lit), "vars": None})
+        impl.append(world.value_from_ast(N("C"), lit, None)); what.append(("value_from_ast", j))
+    cases = [(0, [("x", ("int", 1))]), (0, []), (0, [("x", ("int", 1)), ("y", ("int", 2))]), (0, [("y", ("int", 2)), ("x", ("int", 1))]),
+             (1, [("x", ("obj", [("a", ("int", 1))]))]), (1, [("z", ("bool", True)), ("x", ("obj", []))]), (1, [])]
+    for fi, args in cases:
+        case = {"field": fi, "vardefs": [], "args": args, "variables": []}
+        items.append(case_wire(case, specs[fi]))
+        impl.append(world.direct(case)); what.append(("exec", world.doc_text(case)))
+        out = world.pipeline(case)
+        if out[0] == "called" and impl[-1] != ("ok", out[1]):
+            ctx.fail("pipeline-vs-direct:collision", "kwargs seen by the resolver differ from coerce_argument_values called directly",
+                     {"reg": U.reg_to_jsonable(reg), "document": world.doc_text(case), "kwargs": out[1], "direct": list(impl[-1])})
+    ctx.count(len(items))
+    if ctx.model_ok:
+        for it, ans, im, w in zip(items, ask_model(ctx, reg, items), impl, what):
+            mo = model_outcome(ans)
+            ctx.stat("collision:%s" % im[0])
+            if not same_outcome(mo, im):
+                ctx.fail("corr:python-name-collision:%s" % w[0], "colliding python names: model and implementation differ",
+                         {"reg": U.reg_to_jsonable(reg), "request": it, "impl": list(im), "model": list(mo), "input": repr(w[1])}, kind="correspondence")
+
+
 def ty_depth(t):
     return 0 if t[0] == "named" else 1 + ty_depth(t[1])
 
@@ -1238,6 +1285,7 @@ def run(ctx):
     rng = ctx.rng
     # corpus first
     run_corpus(ctx)
+    run_collisions(ctx)
     # the hand-written registry: all type expressions up to 3 wrappers (quick: all <=2, a sample of depth 3)
     reg = U.fixed_registry()
     allt = U.all_types(names_of(reg), 3)
